@@ -237,18 +237,25 @@ def program(shape, op, n):
 
 
 # running ------------------------------------------------------------------------------------------------------------
+MEM_LIMIT = 6 * 1024 * 1024 * 1024
+
+
 def _limits():
     resource.setrlimit(resource.RLIMIT_STACK, (MAIN_STACK, MAIN_STACK))
-    # no core files
     resource.setrlimit(resource.RLIMIT_CORE, (0, 0))
+    # a traversal that eats memory fails in its own process instead of inviting the kernel's OOM killer
+    resource.setrlimit(resource.RLIMIT_AS, (MEM_LIMIT, MEM_LIMIT))
+
+
+def _mode(stack):
+    return "main" if stack == "main" else "thread:%d" % THREAD_STACK
 
 
 def run_case(src, stack, bound):
     """One child process.  Returns dict(status, lines, rc, stderr, secs). status: end | died | timeout."""
-    mode = "main" if stack == "main" else "thread:%d" % THREAD_STACK
     t = time.time()
     try:
-        p = subprocess.run([C.bin_path(BIN), mode], input=src.encode(), stdout=subprocess.PIPE, stderr=subprocess.PIPE,
+        p = subprocess.run([C.bin_path(BIN), _mode(stack)], input=src.encode(), stdout=subprocess.PIPE, stderr=subprocess.PIPE,
                            timeout=bound, preexec_fn=_limits)
         out, err, rc = p.stdout.decode(errors="replace"), p.stderr.decode(errors="replace"), p.returncode
         status = "end" if out.rstrip().endswith("=== end") and rc == 0 else "died"
@@ -258,15 +265,73 @@ def run_case(src, stack, bound):
     return {"status": status, "lines": out.splitlines(), "rc": rc, "stderr": err[-400:], "secs": time.time() - t}
 
 
-def judge(res, exp):
+PSEP = "\n;;;===\n"
+
+
+def run_batch(srcs, stack, secs):
+    """Many small programs in few processes (harness `batch` mode: fresh engine per program, watchdog of `secs` per
+    program).  A program that kills the process or trips the watchdog costs one restart.  Returns a list of result dicts
+    like run_case's."""
+    n = len(srcs)
+    results = [None] * n
+    todo = list(range(n))
+    guard = 0
+    while todo and guard < n + 5:
+        guard += 1
+        text = PSEP.join(srcs[i] for i in todo)
+        t = time.time()
+        try:
+            p = subprocess.run([C.bin_path(BIN), "batch", _mode(stack), str(secs)], input=text.encode(), stdout=subprocess.PIPE,
+                               stderr=subprocess.PIPE, timeout=secs * 3 + 20 + 2 * len(todo), preexec_fn=_limits)
+            out, err, rc = p.stdout.decode(errors="replace"), p.stderr.decode(errors="replace"), p.returncode
+        except subprocess.TimeoutExpired as ex:
+            out, err, rc = (ex.stdout or b"").decode(errors="replace"), "timeout", 124
+        cur, buf, done_upto = None, [], -1
+        for line in out.splitlines():
+            m = re.match(r"=== begin (\d+)$", line)
+            if m:
+                cur, buf = int(m.group(1)), []
+                continue
+            m = re.match(r"=== done (\d+)$", line)
+            if m and cur is not None:
+                results[todo[cur]] = {"status": "end" if "=== end" in buf else "died", "lines": buf, "rc": 0, "stderr": "",
+                                      "secs": 0.0}
+                done_upto, cur = cur, None
+                continue
+            m = re.match(r"=== timeout (\d+)$", line)
+            if m:
+                k = int(m.group(1))
+                results[todo[k]] = {"status": "timeout", "lines": buf, "rc": 124, "stderr": "watchdog", "secs": secs}
+                done_upto, cur = k, None
+                continue
+            if cur is not None:
+                buf.append(line)
+        if cur is not None:
+            # the program that was running when the process died
+            results[todo[cur]] = {"status": "timeout" if rc == 124 else "died", "lines": buf, "rc": rc, "stderr": err[-400:],
+                                  "secs": time.time() - t}
+            done_upto = cur
+        if done_upto < 0:
+            # nothing ran at all: give up on the first one so that the loop makes progress
+            results[todo[0]] = {"status": "died", "lines": [], "rc": rc, "stderr": err[-400:], "secs": time.time() - t}
+            done_upto = 0
+        todo = todo[done_upto + 1:]
+    for i in range(n):
+        if results[i] is None:
+            results[i] = {"status": "died", "lines": [], "rc": -1, "stderr": "not run", "secs": 0.0}
+    return results
+
+
+def judge(res, exp, want_text=None):
     """Compare one run with what S says.  Returns (verdict, detail): verdict in ok | error-value | crash | timeout | panic | wrong."""
     lines = res["lines"]
     if res["status"] == "timeout":
         done = sum(1 for l in lines if l.startswith("=> "))
         return "timeout", "no answer within the bound (pieces finished: %d)" % done
     if res["status"] == "died":
-        why = "stack overflow" if "overflowed its stack" in res["stderr"] or "stack overflow" in res["stderr"] else (
-            res["stderr"].strip().splitlines()[-1] if res["stderr"].strip() else "")
+        st = res["stderr"]
+        why = "stack overflow" if "overflowed its stack" in st or "stack overflow" in st else (
+            "out of memory" if "memory allocation" in st else (st.strip().splitlines()[-1] if st.strip() else ""))
         where = "teardown" if any(l.startswith("=== pieces done") for l in lines) else "piece %d" % sum(1 for l in lines if l.startswith("=> "))
         return "crash", "process died rc=%s at %s: %s" % (res["rc"], where, why)
     pan = [l for l in lines if l.startswith("=> panic")]
@@ -292,20 +357,413 @@ def judge(res, exp):
             return "wrong", "expected eq %s, got %r" % (exp["eq"], got)
     if "hash" in exp and not any(l.startswith("=> hash ok") for l in lines):
         return "wrong", "no hash answer"
-    if "text" in exp and not any(l.startswith("=> text ") for l in lines):
-        return "wrong", "no text answer"
+    if "text" in exp:
+        got = [l for l in lines if l.startswith("=> text ")]
+        if not got:
+            return "wrong", "no text answer"
+        if want_text and want_text != "text none":
+            g = got[0][3:].split(" ", 3)[:3]
+            w = want_text.split(" ", 3)[:3]
+            if g != w:
+                return "wrong", "printed text differs from S: got %s, S says %s" % (got[0][3:120], want_text[:120])
     return "ok", ""
 
 
+# the model ----------------------------------------------------------------------------------------------------------
+def model_shape(shape):
+    if shape.startswith("cycle:"):
+        return "ring:" + shape[6:]
+    if shape in CHAINS or shape == "mixed":
+        return "chain:" + shape
+    if shape == "dag":
+        return "dag"
+    return None            # wide values: one level, nothing to predict beyond `constant`
+
+
+# which predictions of the model concern a harness operation (every case ends with the value being dropped)
+INVOLVED = {
+    "create": [], "equal-copy": ["eq", "eq-key-depth"], "equal-self": ["eq", "eq-key-depth"], "equal-diff": ["eq", "eq-key-depth"],
+    "host-eq": ["eq", "eq-key-depth"], "hash-key": ["hash"], "hash-set": ["hash"], "hash-code": ["hash"], "host-hash": ["hash"],
+    "display-port": ["collect", "print-depth"], "write-port": ["collect", "print-depth"], "print-port": ["collect", "print-depth"],
+    "host-display": ["collect", "print-depth"], "host-debug": ["collect", "print-depth"],
+    "send-channel": [], "thread-result": [], "gc-live": ["mark"], "gc-dead": ["mark", "drop"], "drop": ["drop"],
+    "host-drop": ["drop"], "serialize": ["serialize", "collect", "print-depth"],   # the error message prints the value
+}
+KEYED = ("map-key", "set")      # shapes whose keys are containers: building and looking up hashes and compares the keys
+
+# configuration flag of the model (= what the code lacks) -> finding class
+CLASS_OF = {
+    "hashIterative": "hash_native_recursion",
+    "printNoReentry": "display_reenters_display",
+    "dropAllIterative": "drop_native_recursion",
+    "eqKeysIterative": "equal_key_reentry",
+    "eqBoxVisited": "equal_unchecked_box_pairs",
+    "markSboxVisited": "mark_strong_box_cycle",
+    "markImmVisited": "mark_shared_immutable_exponential",
+    "ccSboxMutable": "cycle_collector_strong_box_cycle",
+    "ccTracksAlways": "cycle_collector_untracked_before_mutable",
+    "serialize": "serialize_native_recursion",
+    "labels": "display_cycle_label_lookup",
+}
+# findings proposed by this check: treated as listed while their replay file exists (until the coordinator lists them)
+PROPOSED = {
+    "hash_native_recursion": ("K18a", "findings/C18-K18a.scm"),
+    "display_reenters_display": ("K18b", "findings/C18-K18b.scm"),
+    "equal_unchecked_box_pairs": ("K18c", "findings/C18-K18c.scm"),
+    "equal_key_reentry": ("K18d", "findings/C18-K18d.scm"),
+    "serialize_native_recursion": ("K18e", "findings/C18-K18e.scm"),
+    "drop_native_recursion": ("K18f", "findings/C18-K18f.scm"),
+    "mark_strong_box_cycle": ("K18g", "findings/C18-K18g.scm"),
+    "cycle_collector_strong_box_cycle": ("K18h", "findings/C18-K18h.scm"),
+    "mark_shared_immutable_exponential": ("K18i", "findings/C18-K18i.scm"),
+    "display_cycle_label_lookup": ("K18j", "findings/C18-K18j.scm"),
+    "cycle_collector_untracked_before_mutable": ("K18k", "findings/C18-K18k.scm"),
+}
+PRINT_OPS = ("display-port", "write-port", "print-port", "host-display", "host-debug")
+
+
+def ask_driver(lines):
+    rc, out, err = C.run_bin([C.driver_path("c18driver")], "\n".join(lines) + "\n", timeout=600)
+    return rc, out.splitlines()
+
+
+def predictions(shapes):
+    """shape -> {model op: (class, cause, small, large)} from the driver (model M with the scanned configuration)."""
+    ms = sorted(set(m for m in (model_shape(s) for s in shapes) if m))
+    rc, out = ask_driver(["predict " + m for m in ms] + ["table"])
+    pred, table = {}, {}
+    for l in out:
+        m = re.match(r"predict shape=(\S+) op=(\S+) small=(\S+) large=(\S+) class=(\S+) cause=(\S+)", l)
+        if m:
+            pred.setdefault(m.group(1), {})[m.group(2)] = (m.group(5), m.group(6), m.group(3), m.group(4))
+        m = re.match(r"row (\S+) (\S+) (\S+)", l)
+        if m:
+            table[(m.group(1), m.group(2))] = m.group(3)
+    return rc, pred, table
+
+
+# SteelVal variants a shape is made of (for the table-only operation `serialize`)
+VARIANTS_OF = {"list": ["ListV"], "pair-car": ["Pair"], "pair-cdr": ["Pair"], "mvec": ["MutableVector"], "ivec": ["VectorV"],
+               "map-value": ["HashMapV"], "map-key": ["HashMapV"], "set": ["HashSetV"], "struct": ["CustomStruct"],
+               "mstruct": ["CustomStruct", "HeapAllocated"], "box": ["HeapAllocated"], "sbox": ["Boxed"], "closure": ["Closure"],
+               "stream": ["StreamV", "Closure"], "mixed": ["ListV", "MutableVector", "CustomStruct", "Pair", "HeapAllocated", "HashMapV", "VectorV"],
+               "dag": ["ListV"], "wide-list": ["ListV"], "wide-mvec": ["MutableVector"], "wide-ivec": ["VectorV"], "wide-map": ["HashMapV"],
+               "wide-set": ["HashSetV"], "string": ["StringV"]}
+
+
+def explain(shape, op, verdict, detail, pred, table):
+    """Which finding classes does the model M hold responsible for this failure?  Returns a list of class names
+    (empty: the model predicts no failure here)."""
+    ms = model_shape(shape)
+    p = pred.get(ms, {}) if ms else {}
+    causes = []
+    base = shape[6:].split(",")[0].split("/")[0] if shape.startswith("cycle:") else shape
+    involved = list(INVOLVED[op])
+    # the value is dropped at the end of every case (engine teardown)
+    if "teardown" in detail or op in ("gc-dead", "drop", "host-drop"):
+        involved.append("drop-depth")
+    if shape in KEYED:
+        involved += ["hash", "eq-key-depth"]
+    for mo in involved:
+        if mo == "serialize":
+            vs = []
+            if shape.startswith("cycle:"):
+                vs = ["HeapAllocated", "MutableVector", "CustomStruct", "Closure"]
+            else:
+                vs = VARIANTS_OF.get(shape, [])
+            if any(table.get(("serialize", v)) == "recUnbounded" for v in vs):
+                causes.append("serialize")
+            continue
+        if mo not in p:
+            continue
+        cls, cause = p[mo][0], p[mo][1]
+        if cls == "constant" or cause == "-":
+            continue
+        depth_op = mo in ("hash", "print-depth", "drop-depth", "eq-key-depth")
+        if verdict == "crash" and (depth_op or cls == "diverges"):
+            causes.append(cause)
+        elif verdict == "timeout":
+            causes.append(cause)
+        elif verdict in ("panic", "wrong") and cls == "diverges":
+            causes.append(cause)
+    if shape.startswith("cycle:") and op in PRINT_OPS and verdict in ("panic", "timeout", "crash"):
+        causes.append("labels")
+    out = []
+    for c in causes:
+        k = CLASS_OF.get(c)
+        if k and k not in out:
+            out.append(k)
+    return out
+
+
+# the plan -----------------------------------------------------------------------------------------------------------
+CYCLE_OPS = ["create", "equal-copy", "equal-self", "host-eq", "hash-code", "display-port", "host-display", "gc-live", "gc-dead",
+             "send-channel"]
+
+
+def plan(ctx, rng):
+    """List of cases (shape, op, n, stack, bound, batchable)."""
+    cases = []
+    chains = list(CHAINS) + ["mixed"]
+    quick = ctx.quick()
+    depths = [1000, 100000] if quick else [1000, 100000, 1000000]
+    for n in depths:
+        small = n <= 1000
+        bound = 15 if quick else (60 if n <= 100000 else 240)
+        for shape in chains:
+            if shape in KEYED and not small:
+                ops = ["create"]          # building it is already the failing operation; nothing else can be asked
+            elif quick and not small:
+                ops = [o for o in OPS_ALL if o not in ("print-port", "host-debug", "host-eq", "hash-set", "host-hash")]
+            else:
+                ops = list(OPS_ALL)
+            for op in ops:
+                size, b = n, bound
+                if shape == "pair-car" and op in ("display-port", "print-port") and n >= 100000:
+                    # the prelude's printer is quadratic on car-nested pairs (a named let allocates at every level of a deep
+                    # recursion): 27 s at 10^5 on an idle machine.  It terminates and uses no native stack: not a C18 failure;
+                    # quick asks at 3*10^4, thorough gives it the time.
+                    if quick:
+                        size = 30000
+                    else:
+                        if n > 100000:
+                            continue
+                        b = 600
+                if small:
+                    stacks = ["thread"] if quick else ["main", "thread"]
+                elif quick:
+                    stacks = ["main"] + (["thread"] if op in ("create", "drop", "gc-dead", "equal-copy", "hash-code", "host-display") else [])
+                else:
+                    stacks = ["main", "thread"]
+                for st in stacks:
+                    cases.append((shape, op, size, st, b, small))
+    # shared immutable structure: depth 64 is 2^64 leaves unfolded
+    for op in ("create", "equal-copy", "equal-self", "gc-live", "gc-dead", "drop", "send-channel", "hash-code"):
+        cases.append(("dag", op, 64 if quick else 200, "main", 10 if quick else 30, False))
+    # wide values
+    wides = [("wide-list", 10 ** 6), ("wide-mvec", 10 ** 6), ("wide-ivec", 10 ** 6), ("wide-map", 10 ** 5 if quick else 10 ** 6),
+             ("wide-set", 10 ** 5 if quick else 10 ** 6), ("string", 10 ** 7)]
+    wide_ops = ["create", "equal-copy", "equal-diff", "hash-code", "hash-key", "display-port", "host-display", "send-channel",
+                "thread-result", "gc-live", "gc-dead", "drop"]
+    for shape, n in wides:
+        for op in wide_ops if not quick else ["create", "equal-copy", "hash-code", "host-display", "send-channel", "gc-dead", "drop"]:
+            cases.append((shape, op, n, "main", 60 if quick else 240, False))
+            if not quick:
+                cases.append((shape, op, n, "thread", 240, False))
+    # cycles
+    cells = list(CELLS)
+    maxlen = 3 if quick else 6
+    rings = []
+    for L in range(1, maxlen + 1):
+        if L <= 4:
+            rings += [(k, [""] * L) for k in necklaces(cells, L)]
+        else:
+            for _ in range(120):
+                rings.append(([rng.choice(cells) for _ in range(L)], [""] * L))
+    # rings whose links pass through immutable connectors
+    conns = [c for c in CONNECT if c]
+    extra = 12 if quick else 300
+    for _ in range(extra):
+        L = rng.randint(1, 3 if quick else 6)
+        rings.append(([rng.choice(cells) for _ in range(L)], [rng.choice(conns + [""]) for _ in range(L)]))
+    for kinds, cs in rings:
+        nm = cycle_name(kinds, cs)
+        for op in CYCLE_OPS:
+            for st in (["thread"] if quick else ["main", "thread"]):
+                cases.append((nm, op, len(kinds), st, 5 if quick else 10, True))
+    return cases
+
+
+def corpus_cases():
+    out = []
+    d = os.path.join(C.VERIF, "corpus", PID)
+    if os.path.isdir(d):
+        for fn in sorted(os.listdir(d)):
+            for line in open(os.path.join(d, fn)):
+                line = line.strip()
+                if not line or line.startswith("#"):
+                    continue
+                f = line.split()
+                if len(f) >= 5:
+                    out.append((f[0], f[1], int(f[2]), f[3], int(f[4]), False))
+    return out
+
+
+def replay_text(shape, op, n, stack, bound, src, verdict, detail, classes):
+    return (";;! C18 case: shape=%s op=%s size=%d\n;;! stack=%s bound=%d\n;;! verdict: %s — %s\n;;! model: %s\n"
+            ";;! replay: ./check C18 --replay <this file>   (pieces are separated by the line ;;;---)\n%s"
+            % (shape, op, n, stack, bound, verdict, detail, ", ".join(classes) or "the model predicts no failure here", src))
+
+
 def run(ctx):
-    ctx.log("not wired yet")
-    return 1
+    rng = random.Random(ctx.seed * 1000003 + 18)
+    stats = {"cases": 0, "ok": 0, "error_value": 0, "fail": 0, "known": 0, "violations": 0, "text_checked": 0,
+             "matrix": {}, "by_class": {}, "samples": [], "slowest": []}
+    # translate
+    rc, out = C.sh(["python3", os.path.join(C.VERIF, "translate", "c18_traversals.py")], timeout=120)
+    tr_lines = [l for l in out.splitlines() if l.startswith("c18_traversals:")]
+    if rc != 0:
+        ctx.violation("C18-translator.txt", "translate/c18_traversals.py failed (rc=%d): the traversal code no longer has the "
+                      "shape the scan expects\n%s" % (rc, out[-3000:]), no_input=True)
+    pr = C.prove(ctx, PID, ["SteelVerif.C18.GenTraversals", "c18driver"])
+    ok, log = C.build_harness(ctx, [BIN])
+    base_cov = {"obligations": pr["obligations"], "discharged": pr["discharged"],
+                "checker_cmd": "cd lean && lake build SteelVerif.C18.Props && lake env lean SteelVerif/C18/Audit.lean",
+                "trusted_base": C.TRUSTED_BASE + ["translate/c18_traversals.py (regex / brace matching over the impls named in its header)"]}
+    if not ok or not os.path.exists(C.driver_path("c18driver")):
+        ctx.violation("C18-build.txt", "harness or driver does not build:\n" + log + pr["log"][-2000:], no_input=True)
+        ctx.coverage = base_cov
+        return ctx.finish()
+
+    listed = {k["class"]: k for k in ctx.load_known() if "class" in k}
+    known = dict((c, (k.get("id", "?"), k.get("replay", ""))) for c, k in listed.items())
+    provisional = []
+    for c, (kid, rp) in PROPOSED.items():
+        if c not in known and os.path.exists(os.path.join(C.VERIF, rp)):
+            known[c] = (kid, rp)
+            provisional.append(kid)
+    if provisional:
+        ctx.notes.append("finding classes not yet in KNOWN_FINDINGS.txt but treated as listed because their replay file exists: "
+                         + ", ".join(sorted(provisional)))
+
+    cases = corpus_cases() + plan(ctx, rng)
+    seen, uniq = set(), []
+    for c in cases:
+        key = c[:4]
+        if key not in seen:
+            seen.add(key)
+            uniq.append(c)
+    cases = uniq
+    shapes = sorted(set(c[0] for c in cases))
+    rc, pred, table = predictions(shapes)
+    if rc != 0 or not pred:
+        ctx.violation("C18-driver.txt", "the model driver failed (rc=%d)" % rc, no_input=True)
+    # S: expected texts
+    TEXT_MODE = {"display-port": "display", "host-display": "host", "write-port": "host"}
+    want = {}
+    qs = []
+    for shape, op, n, st, bound, small in cases:
+        if op in TEXT_MODE and model_shape(shape) and model_shape(shape).startswith("chain:"):
+            q = "text %s %s %d" % (TEXT_MODE[op], model_shape(shape), n)
+            if q not in want:
+                want[q] = None
+                qs.append(q)
+    if qs:
+        rc2, out2 = ask_driver(qs)
+        for q, l in zip(qs, [l for l in out2 if l.startswith("text ")]):
+            want[q] = l
+    ctx.log("plan: %d cases, %d shapes, %d expected texts; model predictions for %d shapes" % (len(cases), len(shapes), len(qs), len(pred)))
+
+    # run: batchable cases (small programs) in batches per stack mode, the others one process each
+    progs = [program(c[0], c[1], c[2]) for c in cases]
+    results = [None] * len(cases)
+    batches = {}
+    for i, c in enumerate(cases):
+        if c[5]:
+            batches.setdefault((c[3], c[4]), []).append(i)
+    jobs = []
+    for (st, bound), idxs in batches.items():
+        size = max(8, (len(idxs) + 2 * C.NCPU - 1) // (2 * C.NCPU))
+        for k in range(0, len(idxs), size):
+            jobs.append(("batch", st, bound, idxs[k:k + size]))
+    singles = [i for i, c in enumerate(cases) if not c[5]]
+    # long ones first
+    singles.sort(key=lambda i: -cases[i][2])
+    for i in singles:
+        jobs.append(("single", cases[i][3], cases[i][4], [i]))
+
+    def work(job):
+        kind, st, bound, idxs = job
+        if kind == "batch":
+            rs = run_batch([progs[i][0] for i in idxs], st, bound)
+            return [(i, r) for i, r in zip(idxs, rs)]
+        i = idxs[0]
+        return [(i, run_case(progs[i][0], st, bound))]
+
+    for part in C.pool_map(work, jobs, workers=C.NCPU):
+        for i, r in part:
+            results[i] = r
+
+    for i, c in enumerate(cases):
+        shape, op, n, st, bound, small = c
+        src, exp = progs[i]
+        if shape in ("closure", "stream") and op in ("equal-copy", "host-eq"):
+            exp = dict(exp)
+            if "R" in exp:
+                exp["R"] = ["#false"]      # procedures and streams are compared by identity
+            if "eq" in exp:
+                exp["eq"] = "false"
+        wt = None
+        if op in TEXT_MODE and model_shape(shape) and model_shape(shape).startswith("chain:"):
+            wt = want.get("text %s %s %d" % (TEXT_MODE[op], model_shape(shape), n))
+        verdict, detail = judge(results[i], exp, wt)
+        if wt and wt != "text none" and verdict == "ok":
+            stats["text_checked"] += 1
+        stats["cases"] += 1
+        fam = "cycle" if shape.startswith("cycle:") else shape
+        cell = stats["matrix"].setdefault(fam, {}).setdefault(op, {}).setdefault("%d/%s" % (n, st) if fam != "cycle" else st, {})
+        cell[verdict] = cell.get(verdict, 0) + 1
+        stats["slowest"].append((round(results[i]["secs"], 1), shape, op, n, st, verdict))
+        if verdict == "ok":
+            stats["ok"] += 1
+            if len(stats["samples"]) < 3 and op == "display-port" and wt:
+                stats["samples"].append({"shape": shape, "op": op, "size": n, "stack": st, "real": [l for l in results[i]["lines"] if l.startswith("=> text")][0][:90], "S": wt[:90]})
+            continue
+        if verdict == "error-value":
+            stats["error_value"] += 1       # the property allows an error value
+            continue
+        stats["fail"] += 1
+        classes = explain(shape, op, verdict, detail, pred, table)
+        listed_classes = [k for k in classes if k in known]
+        if classes and listed_classes:
+            stats["known"] += 1
+            for k in listed_classes[:1]:
+                stats["by_class"].setdefault(k, {"count": 0, "example": None})
+                stats["by_class"][k]["count"] += 1
+                if stats["by_class"][k]["example"] is None:
+                    stats["by_class"][k]["example"] = "%s %s size=%d stack=%s: %s (%s)" % (shape, op, n, st, verdict, detail[:100])
+            continue
+        stats["violations"] += 1
+        if len(ctx.violations) < 12:
+            name = "C18-%s-%s-%d-%s.scm" % (re.sub(r"[^a-z0-9]+", "_", shape), op, n, st)
+            ctx.violation(name, replay_text(shape, op, n, st, bound, src, verdict, detail, classes))
+    for k, v in sorted(stats["by_class"].items()):
+        kid, rp = known[k]
+        ctx.known_finding("id=%s class=%s replay=%s %d failing cases, e.g. %s" % (kid, k, rp, v["count"], v["example"]))
+
+    if not pr["ok"] and not ctx.violations:
+        ctx.violation("C18-proof-broken.txt", "proof obligations of SteelVerif.C18.Props that no longer check:\n" +
+                      "\n".join("%s: %s" % f for f in pr["failed"]) + "\n", no_input=True)
+    stats["slowest"].sort(reverse=True)
+    cov = dict(base_cov)
+    cov.update({
+        "evaluations": stats["cases"], "distinct_nontrivial": len(set((c[0], c[1], c[2], c[3]) for c in cases)),
+        "rule": "one case = (shape, operation, size, stack); chains of every container kind and a mixed chain at sizes 10^3 / 10^5 "
+                "(thorough: 10^6), shared dag, wide values, cycles through boxes / strong boxes / mutable vectors / mutable struct "
+                "fields / closures (quick: every necklace up to length 3; thorough: up to 4 exhaustively, 5-6 and connector mixes "
+                "sampled from VERIF_SEED); each in its own child process (cycles: batched, fresh engine each), 8 MiB main stack or "
+                "2 MiB thread, wall-clock bound; verdict = survival + termination + result lines / printed text vs S",
+        "passed": stats["ok"], "error_values": stats["error_value"], "failing_cases": stats["fail"],
+        "failing_attributed_to_known_classes": stats["known"], "violations": stats["violations"],
+        "texts_compared_with_S": stats["text_checked"], "matrix": stats["matrix"], "known_classes": stats["by_class"],
+        "model_predictions": dict((s, dict((k, v[0] + ":" + v[1]) for k, v in p.items() if v[0] != "constant")) for s, p in pred.items()),
+        "translator": tr_lines, "samples": stats["samples"], "slowest": stats["slowest"][:8],
+        "axioms": pr.get("axioms", {}), "proof_failures": ["%s: %s" % f for f in pr["failed"]],
+    })
+    ctx.coverage = cov
+    ctx.assumptions = ["native frame sizes are not modelled: the model says whether the native depth grows with the value, the run says "
+                       "whether 8 MiB / 2 MiB are exceeded at 10^3 / 10^5 / 10^6",
+                       "time bounds are wall-clock on a shared machine: a timeout is attributed to a class only when the model predicts "
+                       "divergence, exponential rounds or re-entrant printing for that case"]
+    ctx.log("cases=%d ok=%d error-values=%d failing=%d (known classes %d, violations %d), texts vs S %d" % (
+        stats["cases"], stats["ok"], stats["error_value"], stats["fail"], stats["known"], stats["violations"], stats["text_checked"]))
+    return ctx.finish("proof")
 
 
 def replay(ctx, path):
     C.build_harness(ctx, [BIN])
     src = open(path).read()
-    m = re.search(r"^;+ *stack=(\S+) bound=(\d+)", src, re.M)
+    m = re.search(r"^;;! stack=(\S+) bound=(\d+)", src, re.M)
     stack, bound = (m.group(1), int(m.group(2))) if m else ("main", 60)
     body = "\n".join(l for l in src.split("\n") if not l.startswith(";;!"))
     res = run_case(body, stack, bound)
